@@ -264,7 +264,9 @@ Step(e, s, rw, sl, ak, ls) ==
                 [] ex.must = "open" ->
                      Res(IF s.L.carried THEN C01Clauses(e.b) ELSE <<>>, "write-open-" \o ex.why, OnWrite(s), rw, StoreIfCreate(sl, e.b, NoAsk))
                 [] ex.must = "finish" ->
-                     Res(UnexpectedWriteClauses(s), "write-unexpected-" \o ex.why, [OnWrite(s) EXCEPT !.free = TRUE], rw, sl))
+                     \* a frame nobody should have written is still a byte string on the wire: it must at least be well-formed (C01)
+                     Res(UnexpectedWriteClauses(s) \o (IF s.L.carried THEN C01Clauses(e.b) ELSE <<>>),
+                         "write-unexpected-" \o ex.why, [OnWrite(s) EXCEPT !.free = TRUE], rw, sl))
          ELSE Res(<<"C03:frame-without-waiting-for-the-reply">>, "write-out-of-turn", s, rw, sl)
     [] e.ev = "Reply" ->
          IF s.pc \in {"waitlogin", "waitcmd"}
